@@ -3,7 +3,15 @@
    H / dsha256 is ANY function bytes -> bytes (pycoin passes double SHA-256); the transaction codec
    (parse_tx, stream_tx, tx_hash) is ANY codec meeting the hypotheses written in the statements. *)
 From PV Require Import Base.Bytes Base.Outcome Base.Varint Model.Merkle Model.Block Model.MerkleBlock
-  Spec.MerkleSpec Spec.PartialMerkle Proofs.MerkleP Proofs.BlockP Proofs.MerkleBlockP.
+  Spec.MerkleSpec Spec.PartialMerkle Proofs.MerkleP Proofs.BlockP Proofs.MerkleBlockP Proofs.C14Tie.
+
+(* ---- tie to the source: the layouts the models transcribe are the ones /repo uses now -------------------- *)
+(* block header "L##LLL", count "I", merkleblock "header:z total_transactions:L hashes:[#] flags:[1]" with
+   post_unpack_merkleblock registered, "L" = 4 bytes little-endian, "#" = 32 raw bytes, "1" = 1 byte.
+   Gen/GenBlockC14.v is regenerated from /repo on every run; a change breaks this theorem. *)
+Theorem C14_layouts_as_modelled : layouts_as_modelled.
+Proof. exact layouts_ok. Qed.
+Print Assumptions C14_layouts_as_modelled.
 
 (* ---- merkle root ------------------------------------------------------------------------------------ *)
 (* pycoin's level-by-level loop = the recursive tree definition (BIP37 CalcHash at the root), for every non-empty
